@@ -124,6 +124,11 @@ class HandoverSystem:
             return [base]
         if self.extra == ("hold", "go"):
             return [base + (0, 1), base + (1, 1)]
+        if self.cfg[0] in W.LOOP_IDIOMS:
+            # discard2 is the loop condition: a loop that is kept busy for ever without abort is allowed to wait
+            if self.cfg[0] == "with_a1":      # loop without abort: it has to be released
+                return [base + e for e in ((0, 0), (1, 0))]
+            return [base + e for e in ((0, 0), (1, 0), (1, 1))]
         out = [()]
         for _ in self.extra:
             out = [e + (b,) for e in out for b in (0, 1)]
@@ -345,7 +350,7 @@ def main(run: Run):
             run.tool_error("vacuous: (almost) no event delivered / no set-while-set exercised")
     run.assume("vsim (own VHDL-2008 subset simulator) implements IEEE 1076/numeric_std semantics")
     run.assume("producer and consumer contexts share one clock (the emitted design has a single clock input); "
-               "tx/rx delays 0..2 (quick) / 0..4 (thorough)")
+               "tx/rx delays {0..2}^2 plus (3,0),(0,3),(3,3),(4,4),(3,1),(1,3) (quick) / {0..4}^2 (thorough)")
     run.assume("reference = hand-over monitor with one outstanding event (rules R1-R5 of verif/ref/c15_models.py, "
                "each a clause of the property statement); latency in clocks is left open")
     run.coverage_extra.update(
